@@ -6,6 +6,10 @@ import Hcl.Spec.Machine
 import Hcl.Spec.Accept
 import Hcl.Model.Disasm
 import Hcl.Spec.Y86
+import Hcl.Model.Yo
+import Hcl.Spec.YoFormat
+import Hcl.Model.Dump
+import Hcl.Spec.DumpFormat
 
 /-! Line-protocol driver: one request S-expression per input line, one answer line per request.
     Answer format: `M <model result> ;; S <spec result>`. -/
@@ -240,6 +244,77 @@ def handleTrace (args : List SExp) : String :=
     s!"M {model} ;; S {spec}"
   | _ => "bad-request"
 
+def handleYo (args : List SExp) : String :=
+  let file : List Nat := args.filterMap SExp.nat?
+  let lines := Yo.splitLines file
+  let model : String := match Yo.load lines with
+    | .ok m => "ok " ++ showMem m
+    | .unparseable _ => "err UnparseableLine"
+    | .emptyFile => "err EmptyFile"
+    | .ioError => "err IoError"
+    | .panic => "PANIC"
+  let spec : String :=
+    if lines.isEmpty then "err" else
+    if !lines.all Yo.validUtf8 then "unspecified" else
+    match Spec.image lines (fun _ => 0) [] with
+    | none => "err"
+    | some (mem, used) =>
+      let sorted := used.foldl (fun u a => Spec.insertSorted a u) []
+      "ok " ++ ",".intercalate (sorted.map fun a => s!"{a}:{mem a}")
+  s!"M {model} ;; S {spec}"
+
+def escapeNl (s : String) : String := s.replace "\n" "\\n"
+
+def unescapeText (s : String) : String :=
+  String.ofList (s.toList.map fun c => if c == '␣' then ' ' else if c == '⦅' then '(' else if c == '⦆' then ')' else if c == '⏎' then '\n' else c)
+
+def regNames : List String := ["RAX", "RCX", "RDX", "RBX", "RSP", "RBP", "RSI", "RDI", "R8", "R9", "R10", "R11", "R12", "R13", "R14"]
+
+def canonBanks (bs : List (String × Char × List (String × Nat))) : String :=
+  "|".intercalate ((sortByName (bs.map fun b => (b.1, b.2))).map fun b =>
+    b.1 ++ "(" ++ String.ofList [b.2.1] ++ "){" ++ ",".intercalate (b.2.2.map fun r => s!"{r.1}={r.2}") ++ "}")
+
+def handleDump (fields : List SExp) : String :=
+  let fl := decodeFlags (field fields "flags")
+  let cls := decodeCls (field fields "cls")
+  match field fields "stmts" with
+  | [st] =>
+    match decodeStmts st with
+    | none => "bad-request undecodable-stmts"
+    | some stmts =>
+      match Program.new fl cls {} y86FixedFunctions stmts with
+      | .error ds => "M rej " ++ showDiags ds ++ " ;; S -"
+      | .ok p =>
+        match State.init p (memOf fields) with
+        | .error e => "M init-error " ++ showErr e ++ " ;; S -"
+        | .ok s0 =>
+          let regs := (field fields "regs").filterMap SExp.nat?
+          let vals : AMap WireValue := (field fields "vals").foldl (fun (m : AMap WireValue) e => match e with
+            | .list [.atom n, .atom b, w] => (match b.toNat?, widthOf? w with
+                | some bits, some wd => m.insert n ⟨bits, wd⟩
+                | _, _ => m)
+            | _ => m) s0.values
+          let s : State := { s0 with regs := regs, values := vals, cycle := natField fields "cycle" 0 }
+          let timeout := natField fields "timeout" 0
+          let showBanks := natField fields "showbanks" 1 == 1
+          let model := Dump.state s p.banks timeout showBanks
+          -- the state in canonical form
+          let shown : List RegisterBank := if showBanks then p.banks else []
+          let stateBanks := shown.map fun b =>
+            (b.label, (if Dump.bitsOf vals b.bubble > 0 then 'B' else if Dump.bitsOf vals b.stall > 0 then 'S' else 'N'),
+             b.signals.map fun sg => (Dump.regNameOf sg.1, Dump.bitsOf vals sg.2.1))
+          let canonState := "regs=" ++ ",".intercalate ((regNames.zip regs).map fun r => s!"{r.1}:{r.2}") ++ ";banks=" ++
+            canonBanks stateBanks ++ ";mem=" ++ showMem s.mem ++ ";framed=true"
+          let parsedOf (text : String) : String :=
+            let pr := Spec.DumpFormat.parse text
+            "regs=" ++ ",".intercalate (pr.regs.map fun r => s!"{r.1}:{r.2}") ++ ";banks=" ++ canonBanks pr.banks ++
+              ";mem=" ++ ",".intercalate (pr.bytes.map fun b => s!"{b.1}:{b.2}") ++ s!";framed={pr.framed}"
+          let implText := match field fields "impltext" with
+            | [.atom t] => unescapeText t
+            | _ => ""
+          s!"M {escapeNl model} ;; S {parsedOf implText} ;; V {canonState}"
+  | _ => "bad-request no-stmts"
+
 def handle (line : String) : String :=
   match SExp.parse line with
   | none => "bad-request unparsable"
@@ -249,6 +324,8 @@ def handle (line : String) : String :=
     | some ("prog", fields) => handleProg fields
     | some ("run", fields) => handleRun fields
     | some ("disasm", args) => handleDisasm args
+    | some ("yo", args) => handleYo args
+    | some ("dump", fields) => handleDump fields
     | some ("trace", args) => handleTrace args
     | some (t, _) => s!"bad-request unknown-tag {t}"
     | none => "bad-request no-tag"
